@@ -54,7 +54,11 @@ fn flatten_object(prefix: &str, val: &Value, config: &mut HashMap<String, Value>
 
 fn to_emmyrc_json(config: &FlattenConfigObject) -> Value {
     let mut emmyrc = Value::Object(Default::default());
-    for (k, v) in &config.config {
+    #[cfg(not(feature = "verif-hooks"))]
+    let entries = &config.config;
+    #[cfg(feature = "verif-hooks")]
+    let entries = verif_seam_entries(&config.config);
+    for (k, v) in entries {
         let keys: Vec<&str> = k.split('.').collect();
         let mut current = &mut emmyrc;
         // A key can be both a value and a prefix of another key ({"a": 1, "a.b": 2}). The more
@@ -78,4 +82,14 @@ fn to_emmyrc_json(config: &FlattenConfigObject) -> Value {
         }
     }
     emmyrc
+}
+
+/// Order seam (verification builds only): the flattened map is iterated in hash order
+/// above; here a harness may dictate that order instead. Identity unless a harness is
+/// active on this thread.
+#[cfg(feature = "verif-hooks")]
+fn verif_seam_entries(config: &HashMap<String, Value>) -> Vec<(&String, &Value)> {
+    let mut entries: Vec<(&String, &Value)> = config.iter().collect();
+    crate::verif_hooks::permute_by_key("config.to_emmyrc_json", &mut entries, |e| e.0.clone());
+    entries
 }
